@@ -47,6 +47,8 @@ func (e *EnvSpec) aspect() string {
 	switch {
 	case e.JSON != "":
 		return strings.ReplaceAll(e.Field, "_", "-")
+	case e.CC != "" && !(len(e.CC) == 2 && e.CC[0] >= 'A' && e.CC[0] <= 'Z' && e.CC[1] >= 'A' && e.CC[1] <= 'Z' && e.CC != "ZZ"):
+		return "default-country"
 	case e.NF:
 		return "number-format-symbol"
 	case e.DF != "":
@@ -191,7 +193,7 @@ func envTasks(r *hx.Rand, n int) []*task {
 		rr := r.Fork("env" + string(rune('a'+i%26)) + string(rune('a'+i/26)))
 		env := &EnvSpec{
 			DF: hx.Pick(rr, []string{"", "YYYY-MM-DD", "MM-DD-YYYY", "DD-MM-YYYY"}), TF: hx.Pick(rr, []string{"", "tt:mm", "h:mm aa", "tt:mm:ss", "h:mm:ss aa"}),
-			TZ: hx.Pick(rr, []string{"", "America/Guayaquil", "Asia/Kathmandu", "Pacific/Apia", "Africa/Kigali", "Europe/London"}), CC: hx.Pick(rr, []string{"", "RW", "US", "EC"}),
+			TZ: hx.Pick(rr, []string{"", "America/Guayaquil", "Asia/Kathmandu", "Pacific/Apia", "Africa/Kigali", "Europe/London"}), CC: hx.Pick(rr, []string{"", "RW", "US", "EC", "12", "ZZ"}),
 			Col: hx.Pick(rr, []string{"", "default", "confusables", "arabic_variants"}),
 		}
 		if rr.Bool() {
@@ -219,6 +221,8 @@ func envTasks(r *hx.Rand, n int) []*task {
 		}
 		add(je, "has_date", []VSpec{txt("on 15/01/2017 or 2017-01-15 or 01-15-2017 at 10:30")})
 		add(je, "datetime", []VSpec{txt("15/01/2017 10:30")})
+		add(je, "format", []VSpec{named("dt:2018", vDT("2018-04-11T13:24:30.123456-05:00"))})
+		add(je, "format_time", []VSpec{txt("14:00")})
 		add(je, "format_date", []VSpec{named("dt:2018", vDT("2018-04-11T13:24:30.123456-05:00"))})
 		add(je, "format_datetime", []VSpec{named("dt:2018", vDT("2018-04-11T13:24:30.123456-05:00"))})
 		add(je, "has_state", []VSpec{txt("Kigali")})
@@ -238,7 +242,7 @@ func jsonEnvironments() []*EnvSpec {
 		"date_format":       {`"DD/MM/YYYY"`, `"YY.M.D"`, `""`, `"D-M-YY"`, `"YYYY"`, `"MM-DD-YYYY tt:mm"`, `"QQ"`, `"YYYY-MM-DDTtt:mm"`, `null`},
 		"time_format":       {`""`, `"tt"`, `"h aa"`, `"tt:mm:ss.fff"`, `"ZZZ"`, `"YYYY"`, `null`},
 		"timezone":          {`""`, `"Nowhere/City"`, `"UTC+5"`, `"Local"`, `"America/Guayaquil"`, `null`},
-		"default_country":   {`""`, `"XX"`, `"usa"`, `"rw"`, `null`},
+		"default_country":   {`""`, `"XX"`, `"usa"`, `"rw"`, `"12"`, `"U"`, `"1-"`, `"ZZ"`, `null`},
 		"redaction_policy":  {`""`, `"all"`, `"URNS"`, `"urns"`, `null`},
 		"allowed_languages": {`[]`, `["xyz"]`, `["en"]`, `["eng", "eng"]`, `[""]`, `null`},
 		"number_format":     {`null`, `{}`, `{"decimal_symbol": null}`, `{"decimal_symbol": "", "digit_grouping_symbol": ""}`, `{"decimal_symbol": "::", "digit_grouping_symbol": " "}`},
@@ -251,6 +255,8 @@ func jsonEnvironments() []*EnvSpec {
 				val, ok := base[f]
 				if f == field {
 					val, ok = v, true
+				} else if field == "default_country" && f == "allowed_languages" {
+					val, ok = `["eng"]`, true // the country only matters in a locale, which needs a language
 				}
 				if ok {
 					members = append(members, `"`+f+`": `+val)
